@@ -708,14 +708,18 @@ func (w *Worker) RunScenario(sc *Scenario) {
 opened:
 	// open every client the scenario mentions and let the proxy accept them
 	seenC := map[string]bool{}
+	explicit := map[string]bool{} // opened by the scenario itself, at the point it chooses
 	for _, st := range sc.Steps {
 		for _, s := range st.Stim {
-			if s.C != "" && s.Op != "open" && !seenC[s.C] {
-				seenC[s.C] = true
-			}
 			if s.Op == "open" {
-				seenC[s.C] = true // opened explicitly by the scenario
-				delete(seenC, s.C)
+				explicit[s.C] = true
+			}
+		}
+	}
+	for _, st := range sc.Steps {
+		for _, s := range st.Stim {
+			if s.C != "" && s.Op != "open" && !explicit[s.C] {
+				seenC[s.C] = true
 			}
 		}
 	}
